@@ -321,7 +321,53 @@ def _stack_slices(tier):
     return out
 
 
+def partition_wiring(sl):
+    """the link between the allocator and the bulk parameter source: every client of a bulk task asks for partition
+    (its index within the task, the task's client count), whatever other tasks share its parallel element"""
+    from esrally.driver import driver
+
+    n = concrete(fresh_int("clients_of_the_bulk_task", 1, 4))
+    m = concrete(fresh_int("clients_of_the_sibling_task", 0, 3))
+    cap = bool(fresh_bool("parallel_element_capped_to_fewer_clients")) if m else False
+    bulk = track.Task("bulk", track.Operation("bulk-op", "verif-op"), clients=n, iterations=1)
+    if m:
+        sibling = track.Task("sibling", track.Operation("search-op", "verif-op"), clients=m, iterations=1)
+        element = track.Parallel([sibling, bulk] if bool(fresh_bool("sibling_first")) else [bulk, sibling], clients=max(1, (n + m) // 2) if cap else None)
+    else:
+        element = bulk
+    asked = []
+
+    class Source:
+        infinite = True
+
+        def partition(self, index, total):
+            asked.append((index, total))
+            return self
+
+        def params(self):
+            return {}
+
+    class Rn:
+        completed = None
+        percent_completed = None
+
+    alloc = driver.Allocator([element]).allocations
+    tas = [x for row in alloc for x in row if isinstance(x, driver.TaskAllocation) and x.task is bulk]
+    with shadowed(driver.runner, (), extra={"runner_for": lambda t: Rn()}):
+        for ta in tas:
+            driver.schedule_for(ta, Source())
+    core.trace("asked", len(asked))
+    core.note("asked", asked)
+    observe("one schedule per client of the bulk task", len(asked) == n)
+    observe("together the clients ask for every partition 0..n-1 of n exactly once (so that the union of their slices is the whole corpus)",
+            sorted(asked) == [(i, n) for i in range(n)])
+
+
 HARNESSES = [
+    Harness("partition_wiring", partition_wiring, "bounded-exhaustive", lambda tier: [{}], reads=READS,
+            stubs=["parameter source recording partition() calls", "runner registry lookup"],
+            bounds={"bulk task": "1..4 clients", "sibling task in the same parallel element": "absent or 1..3 clients, before or after, element capped or not"},
+            doc="Allocator -> schedule_for -> partition(index in task, clients of the task)"),
     Harness("bounds_arith", bounds_arith, "symbolic", lambda tier: [{}], reads=READS, float_model="E", assumptions=E_ASSUME, real_valued=True,
             bounds={"total_docs": "0..10^12", "num_clients": "1..10^6", "client range": "any 0 <= s <= e < n"},
             doc="exact cover by construction: first range starts at 0, last ends at T, adjacent ranges meet, docs >= 0"),
